@@ -1009,7 +1009,8 @@ func GenAVCSliceSetOpt(rt *rapid.T, o AVCSliceOpts) (sps []nalgen.AVCSPSTree, pp
 }
 
 // GenAVCConfSets draws the parameter sets of an AVCDecoderConfigurationRecord: 1..3 SPS (the first one
-// determines the record's profile / level / chroma fields) and 0..3 PPS.
+// determines the record's profile / level / chroma fields) and 0..3 PPS; one record in twelve has up to 31 SPS
+// and 31..255 PPS (the limits of the two count fields).
 func GenAVCConfSets(rt *rapid.T) (sps []nalgen.AVCSPSTree, pps []nalgen.AVCPPSTree) {
 	return GenAVCConfSetsOpt(rt, nil)
 }
@@ -1026,6 +1027,12 @@ var AVCConfProfiles = []uint32{66, 77, 88, 100, 110, 122, 244, 144, 100, 110, 12
 func GenAVCConfSetsOpt(rt *rapid.T, firstProfiles []uint32) (sps []nalgen.AVCSPSTree, pps []nalgen.AVCPPSTree) {
 	nSPS := rapid.SampledFrom([]int{1, 1, 1, 2, 3}).Draw(rt, "nSPS")
 	nPPS := rapid.SampledFrom([]int{1, 1, 2, 3, 0}).Draw(rt, "nPPS")
+	// one record in twelve carries many parameter sets: numOfSequenceParameterSets is a 5-bit field (at most 31),
+	// numOfPictureParameterSets an 8-bit one (pic_parameter_set_id runs from 0 to 255)
+	if rapid.IntRange(0, 11).Draw(rt, "manySets") == 0 {
+		nSPS = rapid.SampledFrom([]int{1, 1, 2, 15, 16, 31}).Draw(rt, "nSPSMany")
+		nPPS = rapid.SampledFrom([]int{31, 32, 33, 40, 64, 128, 255}).Draw(rt, "nPPSMany")
+	}
 	spsIDs := AVCDistinct(rt, nSPS, 31, "seq_parameter_set_id")
 	ppsIDs := AVCDistinct(rt, nPPS, 255, "pic_parameter_set_id")
 	for i := 0; i < nSPS; i++ {
